@@ -61,11 +61,7 @@ func (g *wgen) mutate() {
 	case x < 58 && present:
 		g.upd(idx, old) // re-write of the same value
 	case x < 80:
-		if r.Intn(2) == 0 {
-			g.emit("updel %x", key)
-		} else {
-			g.emit("del %x", key)
-		}
+		g.emit("%s %x", g.delOp(), key)
 		if present {
 			delete(g.live, key)
 			g.dirty = true
@@ -73,17 +69,40 @@ func (g *wgen) mutate() {
 				g.upd(idx, old) // delete and re-add identical content
 			}
 		}
-	default:
-		if r.Intn(2) == 0 {
-			g.emit("updel %x", key)
-		} else {
-			g.emit("del %x", key)
+	case x < 83:
+		// API edges: keys that are not 32 bytes, a value with weight 0 (replaced at once: a trie of total weight 0 is outside the
+		// reopen oracle's domain)
+		switch r.Intn(4) {
+		case 0:
+			g.emit("updbad %s %x %d", []string{"nil", "empty", fmt.Sprintf("%x", key[:31]), fmt.Sprintf("%x00", key)}[r.Intn(4)], wgenValue(r, idx, g.shared), 1+r.Intn(4))
+		case 1:
+			g.emit("updbad %s - 0", []string{"nil", "empty"}[r.Intn(2)])
+		case 2:
+			// (Delete has no key-length check: a SHORT key that spells the path of a short node deletes the whole subtree below
+			// it — reported, notes/C09.md; only the nil / empty spellings are sent here)
+			g.emit("delbad %s", []string{"nil", "empty"}[r.Intn(2)])
+		default:
+			v := wgenValue(r, idx, g.shared)
+			g.emit("upd %x %x 0", key, v)
+			g.emit("weight")
+			v2 := wgenValue(r, idx, g.shared)
+			for string(v2) == string(v) || present && string(v2) == string(old) {
+				v2 = wgenValue(r, idx, g.shared) // (a same-value rewrite would keep the weight 0)
+			}
+			g.upd(idx, v2)
 		}
+	default:
+		g.emit("%s %x", g.delOp(), key)
 		if present {
 			delete(g.live, key)
 			g.dirty = true
 		}
 	}
+}
+
+// delOp: the three ways to delete — Delete(key), Update(key, nil, 0), Update(key, []byte{}, 0)
+func (g *wgen) delOp() string {
+	return []string{"updel", "updel0", "del"}[g.r.Intn(3)]
 }
 
 func (g *wgen) commit() {
@@ -354,7 +373,7 @@ func genC09(r *rand.Rand, tier string, idx int) []string {
 func init() {
 	register(&Suite{
 		Name:        "c09",
-		Rule:        "histories of 4..25 (thorough 4..53) ops: update / overwrite / same-value rewrite / delete (both entry points) / delete+re-add over 2..9 (thorough up to 19) 32-byte keys sharing prefixes of every length, weights 1..4 determined by the value (every fourth case: weights from the boundary set {1, 2, 3, 105, 2^31, 2^32, 2^62, 2^63-1, 2^63, 2^63+1, 2^64-1-others and neighbours} with the total below 2^64, re-weighting across 2^63 in both directions, owners checked at the first / last / an inner block of every interval and beyond the total), interleaved with commit at collapse levels -1..6, GC, reload from the committed (root, weight), weight, root, owner of random and of every block; non-trivial = at least 2 successful mutations and one commit",
+		Rule:        "histories of 4..25 (thorough 4..53) ops: update / overwrite / same-value rewrite / delete (Delete, Update with nil, Update with an empty non-nil slice; present and absent keys) / keys that are not 32 bytes (nil, empty, 31, 33 bytes) / a value of weight 0 / delete+re-add over 2..9 (thorough up to 19) 32-byte keys sharing prefixes of every length, weights 1..4 determined by the value (every fourth case: weights from the boundary set {1, 2, 3, 105, 2^31, 2^32, 2^62, 2^63-1, 2^63, 2^63+1, 2^64-1-others and neighbours} with the total below 2^64, re-weighting across 2^63 in both directions, owners checked at the first / last / an inner block of every interval and beyond the total), interleaved with commit at collapse levels -1..6, GC, reload from the committed (root, weight), weight, root, owner of random and of every block; non-trivial = at least 2 successful mutations and one commit",
 		Gen:         genC09,
 		Run:         runWmpt,
 		CaseTimeout: 3 * time.Minute, // a stalled machine must not look like a hang; a real hang still fails the case
